@@ -386,6 +386,12 @@ def sibling_gap_step(R: Draw, g: DocGen, doc: dict) -> dict | None:
     (n1, s1, _), (n2, s2, _) = sibs[i], sibs[j]
     gap_from = R.int(s1 + 1, s1 + 1 + n1.content_size)
     gap_to = R.int(s2 + 1, s2 + 1 + n2.content_size)
+    one_sided = R.weighted([("no", 5), ("start", 2), ("end", 2)])
+    if one_sided == "start":
+        gap_to = R.choice([s1 + n1.size, s2, s2 + n2.size])  # ends at the parent's level: open at its start only
+    elif one_sided == "end":
+        gap_from = R.choice([s1, s1 + n1.size, s2])  # starts at the parent's level: open at its end only
+    gap_from, gap_to = min(gap_from, gap_to), max(gap_from, gap_to)
     frm = s1 if R.bool(0.7) else gap_from
     to = s2 + n2.size if R.bool(0.7) else gap_to
     if R.bool(0.5):
